@@ -453,6 +453,9 @@ class Machine:
         m = re.match(r'^([-+]?\d+(\.\d+)?(e[-+]?\d+)?)f(32|64)$', txt)
         if m:
             return Opaque('float', float(m.group(1)))
+        if txt.startswith('ZeroSized: {closure@') and txt.endswith('}'):
+            # a closure without captures is a zero-sized constant
+            return Adt(txt[len('ZeroSized: '):], None, {}, [], meta=('created_in', body.name if body is not None else None))
         if txt.startswith('{alloc') or txt.startswith('{transmute') or txt.startswith('ZeroSized'):
             return Opaque('alloc', txt)
         # named constant / promoted / fn item / unit struct / enum unit variant
